@@ -96,6 +96,7 @@ type world struct {
 	elPath    string
 	salt      *detReader
 	tmp       bool
+	shapes    []locShape
 	fresh     bool // first worker of the shard (not a restart after a death)
 }
 
@@ -325,6 +326,7 @@ func mkWorld() *world {
 	w.pool = x509.NewCertPool()
 	w.pool.AddCert(w.root)
 	w.m1, w.m4, w.mrtd = pattern(0x10), pattern(0x40), pattern(0x90)
+	w.shapes = locShapes()
 	w.golden = &epb.VMGoldenMeasurement{Timestamp: &tspb.Timestamp{Seconds: nb.Add(24 * time.Hour).Unix(), Nanos: 5}, ClSpec: 7, Commit: []byte("0123456789abcdef0123"),
 		Digest: pattern(1), Cert: w.signer.Raw,
 		SevSnp: &epb.VMSevSnp{Svn: 3, Policy: gen.ProdPolicy(), FamilyId: make([]byte, 16), ImageId: make([]byte, 16), SvsmMeasurement: w.m1,
